@@ -25,8 +25,8 @@ RULE = ("scripts on the virtual clock (tick 0.25 s): 1..3 arrivals on the slots 
         "placement B/T/A) and uniform per script for 3 arrivals (stop placed A); durations and slots are chosen so "
         "that arrivals coincide with completions, fall into the guard time and onto its end. thorough enumerates "
         "this grid completely and adds random scripts with 4 arrivals on 10 slots, durations 1..4, mixed "
-        "placements, any number of failing runs and guard 1..3; quick takes a random 6 % sample of the grid plus "
-        "4000 random scripts. Compared with the Lean model: the complete time-stamped log of output changes, "
+        "placements, any number of failing runs and guard 1..3; quick takes a random 4 % sample of the grid plus "
+        "3000 random scripts. Compared with the Lean model: the complete time-stamped log of output changes, "
         "coroutine start/end/cancellation and success/error/cancel events in the implementation's order (start "
         "mode: per instant as a set plus the output at the end of the instant, because equal timers fire in heap "
         "order), and the instant at which stop_async finished. distinct = hash of (lines, trace); non-trivial = at "
@@ -99,9 +99,9 @@ def scenarios(rng, tier):
     yield from FIXED
     if tier == 'quick':
         for scn in grid():
-            if rng.random() < 0.06:
+            if rng.random() < 0.04:
                 yield scn
-        nrandom = 4000
+        nrandom = 3000
     else:
         yield from grid()
         nrandom = 60000
